@@ -477,6 +477,40 @@ def rule_F(ck, units):
                   '' if bad is None else 'values of type %s are extracted into a variable of type %s at %s: numbers beyond its range make a valid file fail to parse' % (T, bad[1], f.where(bad[0])))
 
 
+def rule_G(ck, units, floor=2):
+    """G.consumption-slice-free: a reader asked for a row range still walks the WHOLE file - lines of rows outside the range are read and
+    dropped.  The number of lines / items a loop takes from the file is therefore a property of the file (sizes from its header, end of
+    file), never of the requested range: the condition of a loop that reads from the file does not mention a caller-supplied integer
+    parameter (row_beg, row_end).  Otherwise the rest of a column / section stays in the stream and everything read afterwards is
+    shifted."""
+    ck.rule('G.consumption-slice-free', 'MatrixMarket / binary readers: the condition of every loop that takes lines or items from the file mentions no caller-supplied integer '
+                                        'parameter (the requested row range): what is consumed depends on the file only, the range only filters what is kept', floor)
+    done = set()
+    for u in units.values():
+        for f in u.funcs:
+            if f.body is None or not f.rel().startswith('amgcl/io/') or (f.file, f.line) in done:
+                continue
+            reads = [n for n, kind in stream_reads(f) if kind in ('getline', 'io::read', 'istream::read')]
+            if not reads:
+                continue
+            k = 0
+            for L in sorted((x for x in f.nodes.values() if x['k'] in ('for', 'while', 'do') and x.get('c') is not None), key=lambda x: x['i']):
+                if not any(any(y is r for y in walk(L)) for r in reads):
+                    continue
+                k += 1
+                bad = []
+                for x in walk(L['c']):
+                    if x['k'] == 'ref' and f.param_index(x['d']) is not None:
+                        t = u.type(f.decl(x['d']).get('ct')).replace('const ', '').replace('&', '').strip()
+                        if t in INT_TYPES:
+                            bad.append(f.decl(x['d'])['n'])
+                ck.ob('G.consumption-slice-free', '%s|%s|loop#%d' % (f.rel(), f.q, k), f.where(L), not bad, '' if not bad else
+                      'the loop at %s reads from the file and is bounded by the parameter `%s` (`%s`): items of the file outside the requested range are not consumed, everything read '
+                      'afterwards comes from the wrong position' % (f.where(L), bad[0], show(L['c'])[:50]))
+            if k:
+                done.add((f.file, f.line))
+
+
 def main(tier):
     ck = Check('C19', tier, 'C19 (clauses): every file read is checked, file-derived indices are range-checked before use, written precision suffices for an exact round trip.')
     T = os.path.join(ir.VERIF, 'tus')
@@ -491,6 +525,7 @@ def main(tier):
     rule_D(ck, units)
     rule_E(ck, units)
     rule_F(ck, units)
+    rule_G(ck, units)
     import c15
     cu = ir.run_units([dict(name='controls', src=os.path.join(ir.VERIF, 'tus', 'controls.cpp'))], 'C19c')
     c15.rule_F(ck, units, cu['controls'])      # the readers fill their output containers completely, also when the caller reuses them (shared with C15)
